@@ -14,8 +14,10 @@ RULE = ("runtime half: every registry function (tools/vlib/registry.py, %d publi
         "as wrong values in the C08 sweep. Non-trivial: the call returned a value" % len(R.REG))
 NOT_PROVED = ["that the compiled code performs only the modelled accesses, allocator behaviour and uninitialised padding are outside "
               "the Coq model: observed with AddressSanitizer on the same generated inputs (support, not proof)",
-              "uninitialised reads are not detected by ASan; they are exposed by the MALLOC_PERTURB_ comparison of C08"]
+              "uninitialised reads are not detected by ASan; they are exposed by running every call twice on the ordinary build "
+              "with differently perturbed and pre-dirtied heaps (MALLOC_PERTURB_) and comparing the results exactly"]
 BUDGET_S = {"quick": 400, "thorough": 2400}
+PERTURBS = [0x5A, 0xA5]
 
 
 def big_rshape(rng, nd=None, lo=1, hi=7, maxsize=120):
@@ -97,6 +99,17 @@ def setup(ctx):
             out[r["id"]] = (r, o)
     ctx.c10_out = out
     ctx.stats["asan_calls"] = len(out)
+    # "never forms its result from memory it did not initialise": ASan does not see uninitialised reads, so the same calls run
+    # twice on the ordinary build in fresh workers whose heaps are pre-dirtied and perturbed with different bytes
+    un = {}
+    for pb in PERTURBS:
+        rr = [dict(r, predirty=pb) for r in reqs]
+        for s in range(0, len(rr), 400):
+            res = isolate.run_batch(ctx.lib, rr[s:s + 400], perturb=pb, timeout_per_call=60)
+            for r, o in zip(reqs[s:s + 400], res):
+                un.setdefault(r["id"], {})[pb] = o
+    ctx.c10_uninit = un
+    ctx.stats["heap_perturbation_calls"] = len(PERTURBS) * len(reqs)
 
 
 def cases(ctx):
@@ -122,4 +135,12 @@ def run_case(ctx, case):
         return Result(False, True, {"why": "%s in %s" % (kind, r["fn"]), "returncode": o["crash"].get("returncode"), "asan": lines[:8]})
     if "hang" in o:
         return Result(False, True, {"why": "call did not finish under ASan within the time limit", "fn": r["fn"]})
+    un = getattr(ctx, "c10_uninit", {}).get(r["id"]) if r["id"] in out and out[r["id"]][0] == r else None
+    if un is None:
+        un = {pb: isolate.run_batch(ctx.lib, [dict(r, predirty=pb)], perturb=pb, timeout_per_call=60)[0] for pb in PERTURBS}
+    o1, o2 = un[PERTURBS[0]], un[PERTURBS[1]]
+    if o1 and o2 and o1.get("exc") is None and o2.get("exc") is None and "res" in o1 and "res" in o2:
+        if not R.canon_equal(o1["res"], o2["res"], float_tol=False):
+            return Result(False, True, {"why": "%s: result depends on what the heap held before the call (formed from memory it did "
+                                               "not initialise)" % r["fn"], "first": str(o1["res"])[:300], "again": str(o2["res"])[:300]})
     return Result(True, o.get("exc") is None, None, r["fn"] + ("" if o.get("exc") is None else "/exception"))
